@@ -28,10 +28,20 @@ const (
 	c03HkSoon              // doHousekeeping() right away (sync interval not yet elapsed)
 	c03HkLate              // doHousekeeping() after more than SyncInterval since the eldest un-synced write
 	c03Reopen              // Close() and OpenWALForWrite() again
+	// record sizes derived from the limits the code compares sizes with
+	c03W19     // FileLimit in use (20) - 1
+	c03W20     // FileLimit in use
+	c03W21     // FileLimit in use + 1
+	c03W41     // 2 x FileLimit in use + 1
+	c03WBigM1  // configWALFileLimit (2 MiB, the constant in wal.go) - 1
+	c03WBig    // configWALFileLimit
+	c03WBigP1  // configWALFileLimit + 1
+	c03WBig2P1 // 2 x configWALFileLimit + 1
 	c03NumOps
 )
 
-var c03OpNames = [...]string{"W0", "W1", "W5", "W4100", "Sync", "Shift", "HkSoon", "HkLate", "Reopen"}
+var c03OpNames = [...]string{"W0", "W1", "W5", "W4100", "Sync", "Shift", "HkSoon", "HkLate", "Reopen",
+	"W19", "W20", "W21", "W41", "WLimit-1", "WLimit", "WLimit+1", "W2xLimit+1"}
 
 func (o c03Op) String() string { return c03OpNames[o] }
 
@@ -54,6 +64,22 @@ func (o c03Op) writeLen() int {
 		return 5
 	case c03W4100:
 		return 4100
+	case c03W19:
+		return 19
+	case c03W20:
+		return 20
+	case c03W21:
+		return 21
+	case c03W41:
+		return 41
+	case c03WBigM1:
+		return configWALFileLimit - 1
+	case c03WBig:
+		return configWALFileLimit
+	case c03WBigP1:
+		return configWALFileLimit + 1
+	case c03WBig2P1:
+		return 2*configWALFileLimit + 1
 	}
 	return -1
 }
